@@ -574,6 +574,51 @@ func linkBuildCorpus() []Case {
 	return cs
 }
 
+// rootCorpus: the workspace root itself is a package (repo_map key ""): its
+// build file is <root>/BUILD.caco3, its rules have names without any "/"
+// ("top", "lib").  A valid DAG across the root package and sub-packages,
+// duplicates and cycles through root rules, a sub-build directory of the root.
+func rootCorpus() []Case {
+	l := func(xs ...string) []string { return xs }
+	var cs []Case
+	mk := func(w *ws, first []string, seq ...[]string) {
+		c := w.mk("corpus-root", first...)
+		c.Seq = seq
+		cs = append(cs, c)
+	}
+	{ // valid graph across root and sub-packages
+		w := &ws{roots: []string{"", "p"}}
+		w.src("s.txt", "p/t.txt")
+		w.add("", bundle("", "lib", nil, nil))
+		w.add("", bundle("", "top", []string{"lib", "p/a", "sub/deep"}, nil))
+		w.add("", fileSet("", "files", []string{"s.txt", "p/t.txt"}, nil, nil))
+		w.add("", sub("sub", "sub"))
+		w.add("sub", bundle("sub", "deep", []string{"lib"}, nil))
+		w.add("p", bundle("p", "a", []string{"lib", "files.fileset"}, nil))
+		mk(w, l("top"), l("p/a"), l("lib"), l("files"), l("sub/deep", "top"), l("nowhere"), l("top"))
+	}
+	{ // a duplicate among the root rules; a cycle through a root rule; a dangling dependency of one
+		w := &ws{roots: []string{"", "p"}}
+		w.add("", bundle("", "twice", nil, nil))
+		w.add("", bundle("", "twice", nil, nil))
+		w.add("p", bundle("p", "a", nil, nil))
+		mk(w, l("p/a"), l("twice"))
+		w2 := &ws{roots: []string{"", "p"}}
+		w2.add("", bundle("", "x", []string{"p/y"}, nil))
+		w2.add("", bundle("", "free", nil, nil))
+		w2.add("", bundle("", "d", []string{"gone"}, nil))
+		w2.add("p", bundle("p", "y", []string{"x"}, nil))
+		mk(w2, l("free"), l("x"), l("p/y"), l("d"), l("free"))
+	}
+	{ // the root package alone; a rule of the root named like a sub-package's rule path
+		w := &ws{roots: []string{""}}
+		w.add("", bundle("", "a", nil, nil))
+		w.add("", bundle("", "b", []string{"a"}, nil))
+		mk(w, l("b"), l("a"), l("b", "a"))
+	}
+	return cs
+}
+
 // seqCase: a random workspace (often with a dangling dependency or a cycle)
 // and 2-4 further target lists built on the same Builder.
 func seqCase(r *hx.Rng) Case {
@@ -1004,6 +1049,7 @@ func genCases(seed uint64, thorough bool) []Case {
 	cs = append(cs, seqCorpus()...)
 	cs = append(cs, workCorpus()...)
 	cs = append(cs, linkBuildCorpus()...)
+	cs = append(cs, rootCorpus()...)
 	nseq := 120
 	if thorough {
 		nseq = 1500
